@@ -131,7 +131,7 @@ BD = dict(harness='harness/h_bit_data.c', units=[SK + 'asn_bit_data.c'], include
 O(id='asn_get_few_bits', props=['C02', 'C04', 'C05'], kind='width', entry='h_get_few_bits', functions=['asn_get_few_bits', 'asn_get_undo'],
   proves=['asn_get_few_bits', 'asn_get_undo'], unwind=33, cbmc=['--unwindset', 'asn_get_few_bits:4'],
   bound='every stream state over a 16-octet window, every width (int); no refill callback; recursion depth <= 2', min_props=40, **BD)
-O(id='asn_get_many_bits', props=['C02', 'C04'], kind='bounded', tier='experimental', entry='h_get_many_bits', functions=['asn_get_many_bits'],
+O(id='asn_get_many_bits', props=['C02', 'C04'], kind='bounded', tier='thorough', timeout=3000, entry='h_get_many_bits', functions=['asn_get_many_bits'],
   unwind=6, cbmc=['--unwindset', 'asn_get_few_bits:4'], bound='up to 32 bits per call', min_props=40, **dict(BD, backends=['cvc5', 'sat']))
 O(id='asn_put_few_bits', props=['C02', 'C04', 'C07'], kind='width', entry='h_put_few_bits', functions=['asn_put_few_bits'],
   proves=['asn_put_few_bits'], unwind=10, cbmc=['--unwindset', 'asn_put_few_bits:3'],
@@ -300,6 +300,15 @@ O(id='_range_intersection.simple', props=['C09'], kind='bounded', entry='h_range
   functions=['_range_intersection', '_range_split', '_range_remove_element', '_range_insert'], stubs=['stubs/qsort3.c'], unwind=8,
   cbmc=['--no-malloc-may-fail', '--memory-leak-check'], bound='two simple (one-interval) operands, 128-bit values, PER rules (is_oer=0, no strict edge check)',
   trusted=['qsort: stub (stubs/qsort3.c)'], min_props=30, timeout=1500, tier='experimental', **CR)
+
+# ---------------------------------------------------------------- C20: unber
+UB = dict(harness='harness/h_unber.c', units=['asn1-tools/unber/libasn1_unber_tool.c'],
+          incdirs=['asn1-tools/unber', 'skeletons', 'libasn1parser', 'libasn1common', 'libasn1fix', 'libasn1print'],
+          fp_restrict=[(r'nextChar\)$', ['mem_next']), (r'bytesRead\)$', ['mem_read']), (r'vprintfError\)$', ['err_vprintf']), (r'vprintf\)$', ['out_vprintf'])])
+O(id='unber_stream.b7', props=['C20', 'C04'], kind='bounded', entry='h_unber_stream', functions=['unber_stream', 'process_deeper', 'print_TL', 'print_V'],
+  unwind=10, cbmc=['--unwindset', 'process_deeper:9', '--malloc-may-fail', '--malloc-fail-null', '--memory-leak-check'],
+  stubs=['stubs/vsnprintf.c'], bound='every input of at most 7 octets, every option combination (-p, -1, -m); recursion depth <= 8',
+  trusted=['snprintf/vsnprintf stub (stubs/vsnprintf.c)'], min_props=100, timeout=1500, **UB)
 
 UNVERIFIED = {
  'C07': ['asn_encode_to_buffer / asn_encode_to_new_buffer / uper_encode_to_buffer / uper_encode_to_new_buffer with a UPER type encoder: obligations exist (tier experimental) but do not discharge (symbolic-length memcpy of the 32-octet bit scratch space runs out of memory); asn_encode with UPER is covered',
